@@ -4,10 +4,16 @@ package main
 // constructive oracle: strings built from brace-free text and well-formed tokens.
 
 import (
+	"bytes"
 	"fmt"
 	"strings"
 
 	pipeline "github.com/buildkite/go-pipeline"
+	"github.com/buildkite/go-pipeline/ordered"
+	"gopkg.in/yaml.v3"
+
+	"verifharness/dump"
+	"verifharness/gen"
 
 	"verifharness/core"
 	"verifharness/vl"
@@ -167,10 +173,148 @@ func runC12(c *ctx) error {
 			c.res.Fail(core.OracleFailure{What: "string without {{ changed", Input: s, Got: out})
 		}
 	}
+	// (c) step level: which fields of a command step the permutation reaches
+	if err := c12StepLevel(c, rng, shards, n/20); err != nil {
+		return err
+	}
 	c.res.Sample(map[string]any{"lookalike": "{{matrix.a b}}"})
 	c.res.Rule = "constructed: 1-6 segments alternating brace-free text and grammatical tokens (every whitespace kind, dimension names over [A-Za-z0-9_.-], values that look like tokens), expected output computed by construction; random: concatenations of near-miss look-alikes and token fragments, compared with the Lean matcher. Non-trivial = contains at least one token / one '{{'; distinct by (string, permutation)."
+	c04s := []*core.Session{c12StepSession}
+	mm2, total2, err2 := core.RunSessions(c.driver, c04s, 20, 0)
+	if err2 != nil {
+		return err2
+	}
 	mm, total, err := core.RunSessions(c.driver, shards, 20, 0)
+	mm = append(mm, mm2...)
+	total += total2
 	c.res.ModelRequests = total
 	c.res.Mismatches = mm
 	return err
+}
+
+var c12StepSession *core.Session
+
+var c12Mode int // 0 anonymous dimension, 1 named os/arch, 2 no matrix
+
+func c12TokStr(r *core.Rand) string {
+	if r.Intn(40) == 0 {
+		return "{{matrix.zz}}" // unknown dimension
+	}
+	switch r.Intn(6) {
+	case 0:
+		if c12Mode == 0 {
+			return "{{matrix}}"
+		}
+		return "{{ matrix.os }}"
+	case 1:
+		if c12Mode == 0 {
+			return "pre {{\tmatrix }} post {{matrix}}"
+		}
+		return "x-{{matrix.arch}}-{{matrix.os}}"
+	case 2:
+		return "{{matrix.os}"
+	}
+	return gen.DefaultStr(r)
+}
+
+// c12StepLevel: parsed command steps with tokens in every string position, a valid permutation,
+// InterpolateMatrixPermutation vs the Lean step model (kind = matrix) and the scope oracle.
+func c12StepLevel(c *ctx, rng *core.Rand, _ []*core.Session, n int) error {
+	c12StepSession = core.NewSession("c04")
+	for i := 0; i < n; i++ {
+		o := &gen.Opts{R: rng, Str: c12TokStr, Key: func(r *core.Rand) string {
+			if r.Intn(4) == 0 {
+				if c12Mode == 0 {
+					return core.Pick(r, []string{"{{matrix}}", "k-{{matrix}}"})
+				}
+				return core.Pick(r, []string{"k-{{matrix.os}}", "{{matrix.arch}}"})
+			}
+			return gen.DefaultKey(r)
+		}, MaxMapSize: 20, MaxGroupDepth: 0}
+		c12Mode = rng.Intn(3)
+		stepDoc := o.CommandStep()
+		// a matrix whose dimensions we know, so that a valid permutation exists
+		var perm map[string]string
+		switch c12Mode {
+		case 0:
+			stepDoc.Set("matrix", []any{"v1", "{{matrix}}"})
+			perm = map[string]string{"": core.Pick(rng, []string{"v1", "{{matrix}}"})}
+		case 1:
+			setup := ordered.NewMap[string, any](2)
+			setup.Set("os", []any{"linux", "{{matrix.arch}}"})
+			setup.Set("arch", []any{"arm", "x86"})
+			stepDoc.Set("matrix", ordered.MapFromItems(ordered.TupleSA{Key: "setup", Value: setup}))
+			perm = map[string]string{"os": core.Pick(rng, []string{"linux", "{{matrix.arch}}"}), "arch": core.Pick(rng, []string{"arm", "x86"})}
+		default:
+			stepDoc.Delete("matrix")
+			perm = map[string]string{}
+		}
+		src, err := yaml.Marshal([]any{stepDoc})
+		if err != nil {
+			continue
+		}
+		p, perr := pipeline.Parse(bytes.NewReader(src))
+		if p == nil || len(p.Steps) != 1 {
+			continue
+		}
+		_ = perr
+		cs, ok := p.Steps[0].(*pipeline.CommandStep)
+		if !ok {
+			continue
+		}
+		before := dump.Step(cs)
+		tf := pipeline.VerifMatrixTransformer(pipeline.MatrixPermutation(perm))
+		expand := func(s string) (string, bool) {
+			out, err := tf.Transform(s)
+			return out, err == nil
+		}
+		var ierr error
+		if pn, msg := guard(func() { ierr = cs.InterpolateMatrixPermutation(pipeline.MatrixPermutation(perm)) }); pn {
+			c.res.Fail(core.OracleFailure{What: "InterpolateMatrixPermutation panicked: " + msg, Input: string(src)})
+			continue
+		}
+		after := dump.Step(cs)
+		got := "error"
+		if ierr == nil {
+			got = "ok " + vl.Enc(after)
+		}
+		desc := map[string]any{"step": string(src), "permutation": perm}
+		if len(perm) == 0 {
+			c.res.OracleChecks++
+			if ierr == nil && vl.Enc(after) != vl.Enc(before) {
+				c.res.Fail(core.OracleFailure{What: "empty permutation changed the step", Input: desc})
+			}
+			continue
+		}
+		strs := map[string]bool{}
+		allStrings(before, strs)
+		tbl := vl.OMap{}
+		for _, s := range sortedKeysS(strs) {
+			if e, ok := expand(s); ok {
+				tbl = append(tbl, vl.KV{K: s, V: e})
+			} else {
+				tbl = append(tbl, vl.KV{K: s, V: nil})
+			}
+		}
+		c12StepSession.Add(vl.Escape("interpstep "+vl.Enc("m")+" "+vl.Enc(tbl)+" "+vl.Enc(before)), vl.Escape(got))
+		mp := &mapper{f: expand}
+		want := mp.step(before, true)
+		c.res.OracleChecks++
+		switch {
+		case mp.collision:
+			c.res.Hist("step.oracle.skipped-collision")
+		case mp.failed:
+			c.res.Hist("step.unknown-dimension")
+			if ierr == nil {
+				c.res.Fail(core.OracleFailure{What: "a token names a dimension the permutation lacks, but the step was interpolated without error", Input: desc})
+			}
+		case ierr != nil:
+			c.res.Fail(core.OracleFailure{What: "all tokens known but InterpolateMatrixPermutation failed", Input: desc, Got: ierr.Error()})
+		case vl.Enc(want) != vl.Enc(after):
+			c.res.Fail(core.OracleFailure{What: "matrix interpolation scope: a field that must be transformed was not, or one that must not be was", Input: desc, Got: firstDiff(vl.Enc(after), vl.Enc(want))})
+		}
+		c.res.Case("step:"+string(src)+fmt.Sprint(perm), true)
+		c.res.Hist("step-level")
+	}
+	return nil
 }
